@@ -73,15 +73,16 @@ let () =
   register "safe.cycoam" (fun a ->
       let n = ai a 1 in
       let h = ref 7 and k = ref 0 in
-      let prev = ref (let (_, s) = R_sys.cur () in oam_string s.s_oam) in
+      let bytes_of (o : oam) = List.map int_of_n (oam_bytes o) in
+      let prev = ref (let (_, s) = R_sys.cur () in bytes_of s.s_oam) in
       for t = 1 to n do
         R_sys.st := Some (ok (sys_cycle (R_sys.cur ())));
         let (_, s) = R_sys.cur () in
-        let now = oam_string s.s_oam in
+        let now = bytes_of s.s_oam in
         if now <> !prev then begin
           incr k;
           h := ((!h * 1000003) lxor t) land 0xFFFFFFFFFF;
-          String.iter (fun ch -> h := ((!h * 1000003) lxor (Char.code ch)) land 0xFFFFFFFFFF) now;
+          List.iter (fun b -> h := ((!h * 1000003) lxor b) land 0xFFFFFFFFFF) now;
           prev := now
         end
       done;
